@@ -30,6 +30,10 @@ a query on a view of one sequence, with or without name= / biotype=, returns exa
 sequence's records by exact string equality (harness/names_C04.py: old-style Alignment,
 old / new Sequences given one db, members of a new-style SequenceCollection).
 
+Strided views (AnnotationStride.tla, extends Annotation.tla): seq[a:b:k] with k = 1..3,
+rc() of them and strided slices of slices; same universes, same observations (replayed by
+the sequence-level machinery of this file).
+
 spec -> code, on old-style and new-style Sequence (features made with seq.add_feature -
 on the root, on a root with an offset, on a slice - or loaded as absolute coordinates
 into a BasicAnnotationDb) and on old-style Alignment:
@@ -808,6 +812,9 @@ def check(run: Run):
         "Identity of records (AnnotationNames.tla): 8 universes (one family of look-alike strings at a time for sequence names / "
         "feature names / biotypes) x every view [a:b] / rc of 3 sequences of length 4 sharing one db x sequence x filter (none, name=, "
         "biotype=) x partial, on an old-style Alignment, old / new Sequences and members of a new-style collection (quick: 25% of the queries). "
+        "Strided views (AnnotationStride.tla): the same universes with views closed under seq[a:b:k], k in 1..3 (step <= 3), and rc(): "
+        "every state observed (partial / strict whole-view queries, coordinates, orientation, slice string), 3% of the other histories; "
+        "quick P=5, thorough P=6. "
         "distinct_nontrivial = distinct (universe or history, view, feature) whose feature is only partly retained by the view and whose "
         "slice (string / alignment rows) was compared and agreed."
     )
@@ -815,7 +822,8 @@ def check(run: Run):
     run.note("stages", tm)
     run.assumptions += [
         "expected slice strings are rendered from the spec's root positions with the complement table defined in Annotation.tla / AnnotationAln.tla; roots use 12 IUPAC symbols that differ from their complement, each at most once",
-        "views are contiguous (stride 1) slices with 0 <= start < stop <= len, rc(), copy(), seq[feature], degap() of gap-free sequences; seq[::-1] is only required to report no features; strided views, negative/None slice arguments (C01) and empty views are not driven",
+        "views are slices with 0 <= start < stop <= len (stride 1 in Annotation.tla, strides 1..3 in AnnotationStride.tla), rc(), copy(), seq[feature], degap() of gap-free sequences; seq[::-1] is only required to report no features; negative/None slice arguments (C01) and empty views are not driven",
+        "strided views: a feature with a displayed residue must be returned by the partial query and shown exactly; whether a feature whose extent reaches into residues the stride skips at the ends of the view counts as inside / overlapping is left open (opt); window queries, copies, feature slices and the feature algebra are not driven on strided views",
         "two features per universe (plus-strand a, its mirror image b on the minus strand), 1-2 spans each; parent/child records (get_children/get_parent: name matching is by SQL LIKE and has no stated coordinate semantics) and drawables are not driven",
         "derived features (as_one_span, shadow, without_lost_spans) are required to keep the strand of the feature they derive from, as implemented (the docstrings are silent); for the union of a plus- and a minus-strand feature only the covered positions are stated, not its strand or slice",
         "with_masked_annotations: only the masked string is compared (mask_char '?'); the annotation db the result carries is not queried",
